@@ -24,6 +24,7 @@ type dumper struct {
 	posKey func(token.Pos) int
 	canon  bool // canonical form: no ids, positions reduced to validity
 	strip  bool // drop import declarations from File.Decls
+	noObj  bool // print every *ast.Object as nil (whether the parser resolved an identifier is not syntax)
 }
 
 var (
@@ -99,7 +100,7 @@ func (d *dumper) val(v reflect.Value) {
 			d.w("(N " + et + ")")
 			return
 		case objectType:
-			if v.IsNil() {
+			if v.IsNil() || d.noObj {
 				d.w("(N " + et + ")")
 			} else if d.canon {
 				d.w("(S " + et + ")")
